@@ -35,7 +35,7 @@ def floors(tier):
     return {"const_checked": 20000, "enum_checked": 40000, "unique_checked": 40000, "pairs_equal": 5000,
             "pairs_unequal": 5000, "depth0": 500, "depth1": 500, "depth2": 500, "depth3": 500,
             "arrays_all_scalar": 500, "arrays_sortable_containers": 500, "arrays_unsortable": 500,
-            "uniq_regions_hit": 1, "container_class_variants": 5000}
+            "uniq_regions_hit": 1, "container_class_variants": 5000, "nested_placements": 10000}
 
 
 NFC = unicodedata.normalize("NFC", "é")
@@ -85,6 +85,29 @@ def checks(ctx, c, x, depth, rng, V6=(6, 7), ALL=impl.DRAFTS):
         plan.append(({"uniqueItems": True}, [c, x], not want, "unique"))
         for schema, inst, exp, kind in plan:
             one(ctx, d, cls, schema, inst, exp, kind)
+        # the same comparisons reached through applicators (a keyword that "knows" what its subschema says must still
+        # compare as JSON does)
+        if depth <= 1 and rng.random() < 0.35:
+            E = {"const": c} if d in V6 else {"enum": [c]}
+            E2 = {"enum": [distract[0], c]} if distract else {"enum": [c]}
+            nested = [({"items": E}, [x], want), ({"properties": {"a": E2}}, {"a": x}, want), ({"additionalProperties": E}, {"k": x}, want),
+                      ({"items": [{}, E2]}, ["first", x], want), ({"items": {"uniqueItems": True}}, [[c, x]], not want)]
+            if d >= 4:
+                nested += [({"not": E}, x, not want), ({"anyOf": [E, {"enum": distract[:1]}]}, x, want), ({"allOf": [{}, E2]}, x, want),
+                           ({"oneOf": [E, E2]}, x, False if want else False)]
+            else:
+                nested += [({"disallow": [E]}, x, not want), ({"extends": [E2]}, x, want), ({"type": [E, "null"]}, x, want or x is None)]
+            if d >= 6:
+                other = [v for v in distract if not jeq(v, c)]
+                nested += [({"contains": E}, [x], want), ({"contains": E}, [other[0], x] if other else [x], want),
+                           ({"contains": E2}, [x], want), ({"contains": {"uniqueItems": True}}, [[c, x]], not want)]
+            if d >= 7:
+                nested += [({"if": E, "then": False}, x, not want), ({"if": E, "else": False}, x, want)]
+            for schema, inst, exp in nested:
+                if schema.get("oneOf"):
+                    continue        # (both branches equal or both differ: never exactly one - nothing to learn)
+                ctx.count("nested_placements")
+                one(ctx, d, cls, schema, inst, exp, "nested")
         if _has_container(c) or _has_container(x):
             # the same JSON values in other container classes (both sides, e.g. loaded with object_pairs_hook=OrderedDict:
             # == between two OrderedDicts is order-sensitive; JSON objects are unordered)
